@@ -56,7 +56,7 @@ def scalar_of(cell, kind):
 def kind_of(arr):
     k = dtype_kind(arr.dtype)
     if k == "M":
-        return arr.dtype[arr.dtype.index("[") + 1:-1]
+        return arr.dtype[arr.dtype.index("[") + 1:-1] if "[" in arr.dtype else "D"    # generic unit: only NaT can be stored
     return k
 
 # ------------------------------------------------------------------ predicates on cells
